@@ -70,6 +70,14 @@ pub struct Case {
     /// the component is executed inside that many nested scopes (the population stack lives outside of them)
     #[serde(default)]
     pub nest: u8,
+    /// earlier (parents, offspring) pairs the same operator was executed on in the same state before (component path);
+    /// their results are removed from the stack again: every call decides on the two populations it is given
+    #[serde(default)]
+    pub prior: Vec<(Vec<Ind>, Vec<Ind>)>,
+    /// 1: a best-so-far individual whose objective equals the best parent's is present in the state (registered before
+    /// the offspring were evaluated), 2: one that is better than everything; plus counters
+    #[serde(default)]
+    pub distractor: u8,
 }
 
 fn fine(c: &Case, idx: usize, o: Option<i8>) -> Option<f64> {
@@ -123,7 +131,7 @@ impl Check for ReplCheck {
         "C12/replacement".into()
     }
     fn classes(&self) -> &'static [&'static str] {
-        &["both non-empty", "cross-population tie at the cut", "mu < total", "mu == 0", "mu > total", "duplicates by value", "unequal sizes", "via Replacement::replace", "+inf objective", "populations below", "distinct objective values within a few representable steps or f64::EPSILON of each other", "executed inside nested scopes"]
+        &["both non-empty", "cross-population tie at the cut", "mu < total", "mu == 0", "mu > total", "duplicates by value", "unequal sizes", "via Replacement::replace", "+inf objective", "populations below", "distinct objective values within a few representable steps or f64::EPSILON of each other", "executed inside nested scopes", "best-so-far individual and counters present in the state", "the operator ran on other populations in the same state before"]
     }
     fn oracle(&self, c: &Case) -> Outcome {
         let mut cl = 0u64;
@@ -234,6 +242,40 @@ fn oracle(c: &Case, cl: &mut u64) -> Result<(), Failure> {
         for _ in 0..c.nest % 4 {
             comp = mahf::components::Scope::new(vec![comp]);
         }
+        if c.distractor % 3 != 0 {
+            let fin: Vec<f64> = pv.iter().filter_map(|v| v.1).filter(|o| o.is_finite()).collect();
+            let best_parent = fin.iter().cloned().fold(f64::INFINITY, f64::min);
+            let v = if c.distractor % 3 == 1 && best_parent.is_finite() { best_parent } else { all.iter().filter_map(|v| v.1).filter(|o| o.is_finite()).fold(0.0, f64::min) - 1.0 };
+            let mut b = mahf::state::common::BestIndividual::<RealP>::new();
+            b.update(&Individual::new(vec![777.0], v.try_into().unwrap()));
+            state.insert(b);
+            state.insert(mahf::state::common::Evaluations(9));
+            *cl |= 1 << 12;
+        }
+        if !c.prior.is_empty() {
+            *cl |= 1 << 13;
+        }
+        for (pp, po) in &c.prior {
+            let fix = |v: &Vec<Ind>| -> Vec<Individual<RealP>> { v.iter().map(|i| if needs_eval(&c.op) && i.1.is_none() { mk(&(i.0, Some(0))) } else { mk(i) }).collect() };
+            state.populations_mut().push(fix(pp));
+            state.populations_mut().push(fix(po));
+            // the outcome of an earlier call is not this case's subject (errors included); only its side effects are
+            let before = state.populations().len();
+            let r = catch(|| comp.execute(&problem, &mut state));
+            if state.try_borrow::<Populations<RealP>>().is_err() {
+                fail!(format!("C12 {} loses the population stack", op_name(&c.op)), "{at}: during an earlier call");
+            }
+            let after = state.populations().len();
+            let expect = if matches!(r, Ok(Ok(()))) { before - 1 } else { after };
+            let _ = expect;
+            while state.populations().len() > c.below.len() {
+                state.populations_mut().pop();
+            }
+        }
+        if !c.prior.is_empty() {
+            state.populations_mut().push(pv.iter().map(mkv).collect());
+            state.populations_mut().push(ov.iter().map(mkv).collect());
+        }
         let r = catch(|| comp.execute(&problem, &mut state));
         if matches!(r, Ok(Ok(()))) && state.try_borrow::<Populations<RealP>>().is_err() {
             fail!(format!("C12 {} loses the population stack", op_name(&c.op)), "{at}: executed inside {} nested scope(s): afterwards the state holds no population stack", c.nest % 4);
@@ -326,14 +368,45 @@ fn op_strategy() -> impl Strategy<Value = Op> {
 }
 
 fn case_strategy() -> impl Strategy<Value = Case> {
-    (op_strategy(), proptest::collection::vec(proptest::collection::vec(ind_strategy(), 0..3), 0..3), proptest::collection::vec(ind_strategy(), 0..9), proptest::collection::vec(ind_strategy(), 0..9), any::<u64>(), any::<bool>(), any::<bool>(), (prop_oneof![3 => Just(Vec::new()), 2 => proptest::collection::vec(prop_oneof![3 => Just(0i8), 1 => Just(1i8), 1 => Just(-1i8), 1 => Just(2i8)], 1..6)], prop_oneof![5 => Just(false), 1 => Just(true)], prop_oneof![3 => Just(0u8), 1 => 1u8..4])).prop_map(
-        |(op, below, parents, mut offspring, seed, direct, equalise, (ulps, tiny, nest))| {
+    (op_strategy(), proptest::collection::vec(proptest::collection::vec(ind_strategy(), 0..3), 0..3), proptest::collection::vec(ind_strategy(), 0..9), proptest::collection::vec(ind_strategy(), 0..9), any::<u64>(), any::<bool>(), any::<bool>(), (prop_oneof![3 => Just(Vec::new()), 2 => proptest::collection::vec(prop_oneof![3 => Just(0i8), 1 => Just(1i8), 1 => Just(-1i8), 1 => Just(2i8)], 1..6)], prop_oneof![5 => Just(false), 1 => Just(true)], prop_oneof![3 => Just(0u8), 1 => 1u8..4], prop_oneof![4 => Just(Vec::new()), 1 => proptest::collection::vec((proptest::collection::vec(ind_strategy(), 0..6), proptest::collection::vec(ind_strategy(), 0..6)), 1..3)], prop_oneof![3 => Just(0u8), 1 => 1u8..3])).prop_map(
+        |(op, below, parents, mut offspring, seed, direct, equalise, (ulps, tiny, nest, prior, distractor))| {
             if matches!(op, Op::KeepBetterAtIndex) && equalise {
                 offspring.resize(parents.len(), (3, Some(1)));
             }
-            Case { op, below, parents, offspring, seed, direct, ulps, tiny, nest }
+            Case { op, below, parents, offspring, seed, direct, ulps, tiny, nest, prior, distractor }
         },
     )
+}
+
+/// Two MuPlusLambda calls in one state where the second parent population keeps the size and the last individual of
+/// the first result but got worse elsewhere (re-evaluated / aged survivors), with offspring in between.
+fn mpl_history_strategy() -> impl Strategy<Value = Case> {
+    (proptest::collection::vec(-3i8..4, 1..6), proptest::collection::vec(-3i8..4, 0..6), proptest::collection::vec(-3i8..6, 1..6), 0usize..6, 1i8..4, any::<u64>(), 0u8..3).prop_map(|(p0, o0, o1, worse_at, by, seed, nest)| {
+        let mu = p0.len();
+        let mut all: Vec<i8> = p0.iter().chain(o0.iter()).cloned().collect();
+        all.sort();
+        let mut survivors: Vec<i8> = all.into_iter().take(mu).collect();
+        // a survivor other than the last one becomes worse than the last one
+        let last = *survivors.last().unwrap();
+        if mu >= 2 {
+            let k = worse_at % (mu - 1);
+            survivors[k] = last.saturating_add(by);
+        }
+        let tag = |v: &[i8], base: u16| -> Vec<Ind> { v.iter().enumerate().map(|(i, o)| (base + i as u16, Some(*o))).collect() };
+        Case {
+            op: Op::MuPlusLambda(mu as u32),
+            below: vec![],
+            parents: tag(&survivors, 100),
+            offspring: tag(&o1, 200),
+            seed,
+            direct: false,
+            ulps: Vec::new(),
+            tiny: false,
+            nest,
+            prior: vec![(tag(&p0, 0), tag(&o0, 50))],
+            distractor: 0,
+        }
+    })
 }
 
 fn exhaustive() -> Vec<Case> {
@@ -357,7 +430,7 @@ fn exhaustive() -> Vec<Case> {
         for o in &pops {
             for op in &ops {
                 for direct in [false, true] {
-                    out.push(Case { op: op.clone(), below: if direct { vec![] } else { vec![vec![(9, None)]] }, parents: p.clone(), offspring: o.clone(), seed: 7, direct, ulps: Vec::new(), tiny: false, nest: if direct { 0 } else { (p.len() + o.len()) as u8 % 3 } });
+                    out.push(Case { op: op.clone(), below: if direct { vec![] } else { vec![vec![(9, None)]] }, parents: p.clone(), offspring: o.clone(), seed: 7, direct, ulps: Vec::new(), tiny: false, nest: if direct { 0 } else { (p.len() + o.len()) as u8 % 3 }, prior: Vec::new(), distractor: if direct { 0 } else { (p.len() * 2 + o.len()) as u8 % 3 } });
                 }
             }
         }
@@ -366,7 +439,7 @@ fn exhaustive() -> Vec<Case> {
 }
 
 pub fn run_all(ctx: &mut Ctx, replay: Option<&Path>) {
-    ctx.rule("case = (operator, mu, populations below, parents, offspring, seed, via Component::execute or Replacement::replace) over tagged individuals with ties, duplicates by value, unevaluated and +inf objectives, objective values 1-2 representable steps apart and values of magnitude 1e-17; the component also executed inside 1-3 nested scopes while the population stack lives outside them; oracle: stack height -1 and populations below untouched, result is a sub-multiset of parents (+) offspring, content per operator (Merge/Generational/DiscardOffspring exact, MuPlusLambda = min(mu,total) individuals whose objective multiset is the mu smallest, RandomReplacement size, KeepBetterAtIndex index-wise strictly better with parent on ties, Err on unequal sizes); non-trivial = both populations non-empty with mu < total and a parent/offspring tie at the cut, or duplicates by value; distinct by case");
+    ctx.rule("case = (operator, mu, populations below, parents, offspring, seed, via Component::execute or Replacement::replace) over tagged individuals with ties, duplicates by value, unevaluated and +inf objectives, objective values 1-2 representable steps apart and values of magnitude 1e-17; the component also executed inside 1-3 nested scopes while the population stack lives outside them, after earlier calls of the same operator on other populations in the same state (incl. a directed family: second MuPlusLambda call on survivors that got worse in place), and with a best-so-far individual / counters present in the state; oracle: stack height -1 and populations below untouched, result is a sub-multiset of parents (+) offspring, content per operator (Merge/Generational/DiscardOffspring exact, MuPlusLambda = min(mu,total) individuals whose objective multiset is the mu smallest, RandomReplacement size, KeepBetterAtIndex index-wise strictly better with parent on ties, Err on unequal sizes); non-trivial = both populations non-empty with mu < total and a parent/offspring tie at the cut, or duplicates by value; distinct by case");
     ctx.assume("MuPlusLambda and KeepBetterAtIndex get evaluated individuals only (every caller evaluates first)");
     let k = ReplCheck;
     if let Some(p) = replay {
@@ -376,4 +449,5 @@ pub fn run_all(ctx: &mut Ctx, replay: Option<&Path>) {
     ctx.regressions(&k);
     ctx.exhaustive(&k, "all parent x offspring populations of size <= 2 over 3 individuals (two tied) x {Merge, Discard, KeepBetter, MuPlusLambda/Random/Generational with mu in 0..=5} x {execute, replace}", exhaustive().into_iter());
     ctx.random(&k, case_strategy(), ctx.tier.pick(200_000, 1_000_000));
+    ctx.random(&k, mpl_history_strategy(), ctx.tier.pick(20_000, 100_000));
 }
